@@ -57,15 +57,19 @@ def run(res, tier, seed, widen=1):
     signal.signal(signal.SIGALRM, _alarm)
     worst = 0.0
     for (prev, p), a in zip(cases, answers):
-        ad = AutoDecoder()
-        setattr(ad, "_AutoDecoder__previous_success", prev)
-        res.evaluations += 1
         case = {"op": "auto", "prev": prev, "payloads": [p.hex()]}
+        try:
+            ad = D.new_autodecoder(prev)
+        except D.PrimerFailed as ex:
+            res.tie_break(case, str(ex), "the model decodes the genuine primer with its own decoder", "no_escape")
+            continue
+        res.evaluations += 1
         signal.alarm(2)
         t0 = time.perf_counter()
         try:
             r = ad.decode_message_payload(p)
-            impl = ("None" if r is None else D.render_dict(r)) + " @" + ("N" if getattr(ad, "_AutoDecoder__previous_success") is None else str(getattr(ad, "_AutoDecoder__previous_success")))
+            after = D.remembered(ad)
+            impl = ("None" if r is None else D.render_dict(r)) + " @" + ("N" if after is None else str(after))
         except _Timeout:
             res.prop_failure(case, "decode_message_payload did not return within 2 s", "no_escape")
             continue
@@ -132,14 +136,17 @@ def _messages(res, rng, tier, widen, payloads):
         except Exception:  # noqa  (not a message object: the constructor rejects these bytes)
             res.count("message_rejected_by_constructor")
             continue
-        ad = AutoDecoder()
-        setattr(ad, "_AutoDecoder__previous_success", prev)
+        try:
+            ad = D.new_autodecoder(prev)
+        except D.PrimerFailed as ex:
+            res.tie_break({"op": "automsg", "prev": prev}, str(ex), "the model decodes the genuine primer with its own decoder", "message")
+            continue
         res.evaluations += 1
         case = {"op": "automsg", "prev": prev, "kind": kind, "hex": b.hex()}
         signal.alarm(2)
         try:
             r = ad.decode_message(msg)
-            after = getattr(ad, "_AutoDecoder__previous_success")
+            after = D.remembered(ad)
             impl = ("None" if r is None else D.render_dict(r)) + " @" + ("N" if after is None else str(after))
         except _Timeout:
             res.prop_failure(case, "decode_message did not return within 2 s", "message")
@@ -174,14 +181,12 @@ def replay(payload, res):
         if c["op"] == "automsg":
             from han.common import DlmsMessage
             from han.dlde import DataReadout
-            ad = AutoDecoder()
-            setattr(ad, "_AutoDecoder__previous_success", c["prev"])
+            ad = D.new_autodecoder(c["prev"])
             b = bytes.fromhex(c["hex"])
             r = ad.decode_message(DataReadout(b) if c["kind"] == "P" else DlmsMessage(b))
             print("result:", None if r is None else D.render_dict(r)[:300])
         elif c["op"] == "auto":
-            ad = AutoDecoder()
-            setattr(ad, "_AutoDecoder__previous_success", c["prev"])
+            ad = D.new_autodecoder(c["prev"])
             for p in c["payloads"]:
                 r = ad.decode_message_payload(bytes.fromhex(p))
                 print("result:", None if r is None else D.render_dict(r)[:300])
